@@ -504,7 +504,7 @@ static void judge(Sem sem, bool accepted, const std::string &area, const std::st
 	if (sem == SEM_DIFF)
 	{
 		if (accepted && zero_square && (area == "rabin/sig" || area == "rabin/key"))
-			R->viol("rabin/verify/zero-square-stale-buffer", "signature value " + mutname + " (square 0 mod m) accepted: verify() compares a buffer mpz_export never wrote (findings/F6_rabin_verify_zero_root.cc): " + shortened(text, 120), cid);
+			R->viol("rabin/verify/zero-square-stale-buffer", "signature value " + mutname + " (square 0 mod m) accepted: verify() compares a buffer mpz_export never wrote (findings/c10_rabin_verify_zero_root.cc): " + shortened(text, 120), cid);
 		else if (accepted)
 			R->viol(area + "/tamper-accepted/" + what, "altered " + what + " (" + mutname + ") was accepted: " + shortened(text, 160), cid);
 		else
